@@ -29,6 +29,7 @@ def topic_matches(filt: str, topic: str) -> bool:
 class FakeClient:
     instances: list["FakeClient"] = []
     plan: dict = {}  # class-level fault plan for the next instance: {"connect": exc, "subscribe": exc, "publish": exc, "exit": exc}
+    delivery = "qos0"  # "qos0": mid 0, qos 0 | "same-mid": every delivery is QoS 1 with packet id 1 (brokers reuse ids)
     suspend: set = set()  # operations ("connect", "subscribe") that wait for the broker: the explorer completes them
     gates: list = []  # [(operation, future)] of suspended operations, oldest first
 
@@ -88,7 +89,12 @@ class FakeClient:
         if not self.matches(topic):
             return False
         self._mid += 1
-        self._queue.put_nowait(MqttMessage(topic, payload, 0, False, self._mid, None))
+        if FakeClient.delivery == "same-mid":
+            self._queue.put_nowait(MqttMessage(topic, payload, 1, False, 1, None))
+        elif FakeClient.delivery == "retained":
+            self._queue.put_nowait(MqttMessage(topic, payload, 1, True, self._mid, None))
+        else:
+            self._queue.put_nowait(MqttMessage(topic, payload, 0, False, self._mid, None))
         return True
 
     def broker_error(self) -> None:
